@@ -6,7 +6,7 @@
    trace correspondence of tools/props/_mps_trace.py.  Only final statements here. *)
 From Coq Require Import ZArith List Bool PrimFloat.
 From EV Require Import Base.Arith Gen.Brent Model.MpsMachine Proofs.MpsStep Proofs.MpsPhase Proofs.MpsSweep
-  Proofs.MpsTdvpComplete Proofs.DmrgStep Proofs.DmrgPhase Proofs.DmrgSweep Proofs.DmrgContract Proofs.MpsTdvpTrace Proofs.DmrgStepContract Proofs.MpsTdvpRun Proofs.DmrgRun Proofs.DmrgN2.
+  Proofs.MpsTdvpComplete Proofs.DmrgStep Proofs.DmrgPhase Proofs.DmrgSweep Proofs.DmrgContract Proofs.MpsTdvpTrace Proofs.DmrgStepContract Proofs.MpsTdvpRun Proofs.DmrgRun Proofs.DmrgN2 Proofs.MpsRunLoop Proofs.MpsRunLoopCor.
 Import ListNotations.
 Open Scope Z_scope.
 
@@ -177,3 +177,18 @@ Theorem C09_two_sites_whole_run :
     exists new, m_ev sf = new ++ rev (init_events A ar t1) /\
       flat_map (@fill_of A) new = rev (expected_fills A 0 (t1 :: rest)).
 Proof. exact dmrg2_whole_run. Qed.
+
+(* The loop MPSBackend._run executes terminates for every fuel >= the planned number of progress() calls. *)
+Theorem C09_run_loop_terminates :
+  forall (A : Type) (ar : Arith A) (n : nat) (t0 t1 : A) (rest : list A) (plan : list (dstep A)) (erest : list A)
+         (same : list bool) onorm ounif etol maxsw,
+  length plan = S (length rest) -> (length plan <= length same)%nat ->
+  plan_ok A ar n None etol 0 maxsw plan ->
+  exists s0 sf,
+    mk_initial ar DMRG (Z.of_nat n + 3) (1 + Z.of_nat (length rest)) (t0 :: t1 :: rest) etol maxsw
+               onorm ounif (flat_map (dstep_flat A) plan ++ erest) same = Ok s0 /\
+    (forall fuel, (plan_calls A n plan <= fuel)%nat -> run ar fuel s0 = Ok sf) /\ is_finished sf = true /\
+    o_energy sf = erest /\
+    exists new, m_ev sf = new ++ rev (init_events A ar t1) /\
+      flat_map (@fill_of A) new = rev (expected_fills A 0 (t1 :: rest)).
+Proof. exact dmrg_run_loop. Qed.
